@@ -79,10 +79,9 @@ func (s *Shard) GetMode() mode.Mode {
 }
 
 func (s *Shard) setModeStorage(m mode.Mode) error {
-	if s.info.Mode == m {
-		return nil
-	}
-
+	// No "s.info.Mode == m" shortcut: after a partially failed switch the storage
+	// can be in a mode different from the one the shard reports, reopening is the
+	// only way for a repeated SetMode to heal it.
 	err := s.blobStor.Close()
 	if err == nil {
 		if err = s.blobStor.Open(m.ReadOnly()); err == nil && s.initedStorage {
